@@ -71,6 +71,20 @@ fn main() {
                 println!("m5 {:?}", l);
                 v.push("span_labels_follow_the_rule"); v.push("precedence");
             }
+            // 7. field value types: str as is, bool as true/false, integers in decimal (u64 beyond i64::MAX included), anything else by Debug;
+            //    a later record of another type replaces the value
+            let s7 = span!(Level::INFO, "s7", fs = "text", fb = true, fb2 = false, fi = -5i64, fu = u64::MAX, fd = ?vec![1, 2], late = tracing::field::Empty);
+            let _e7 = s7.enter();
+            s7.record("late", 18446744073709551615u64);
+            s7.record("fs", false);
+            metrics::counter!("m7").increment(1);
+            let l = labels_of(&snap, "m7");
+            let get = |k: &str| l.iter().find(|x| x.0 == k).map(|x| x.1.clone());
+            let want = [("fs", "false"), ("fb", "true"), ("fb2", "false"), ("fi", "-5"), ("fu", "18446744073709551615"), ("fd", "[1, 2]"), ("late", "18446744073709551615")];
+            if want.iter().any(|(k, v)| get(k).as_deref() != Some(*v)) || l.len() != want.len() {
+                println!("m7 {:?}", l);
+                v.push("field_value_text");
+            }
         });
         // 4. filter
         let rec = DebuggingRecorder::new();
